@@ -72,6 +72,9 @@ pub enum Op {
     ToAddr(H),
     Sleep(u32),
     Yield,
+    /// make the scene's harness stream yield Item(id)
+    Feed(u32),
+    CloseStream,
 }
 
 #[derive(Default)]
@@ -493,6 +496,22 @@ async fn exec_op(h: &mut Handles, op: Op) -> Res {
         }
         Op::Yield => {
             vexec::yield_now().await;
+            Res::Ok
+        }
+        Op::Feed(id) => {
+            crate::scenes::STREAM.with(|s| {
+                if let Some(st) = s.borrow().as_ref() {
+                    st.feed(id)
+                }
+            });
+            Res::Ok
+        }
+        Op::CloseStream => {
+            crate::scenes::STREAM.with(|s| {
+                if let Some(st) = s.borrow().as_ref() {
+                    st.close()
+                }
+            });
             Res::Ok
         }
     }
